@@ -419,6 +419,9 @@ func c37(r *Run) {
 			okk = hasMatch(cs, "p3 <= *.ChunkReference.Expiry") && hasMatch(cs, "!(ago/utils/set.Bits).Contains((x/dsmr.TimeValidityWindow).IsRepeat(*)#0, *)")
 		}
 		r.check(okk, "C37.R1", "BuildBlock:drops-expired-and-repeated", w.rel(bb.Pos()), "a certificate is included only if Expiry >= timestamp and it is not a repeat", "BuildBlock can include an expired or repeated chunk certificate")
+		// the replay check looks one validity window back, so a certificate must not outlive block timestamp + window
+		okU := len(aps) == 1 && hasMatch(aps[0].Conds(), "*.ChunkReference.Expiry <= ((x/dsmr.Rules).GetValidityWindow((x/dsmr.RuleFactory).GetRules(p0.ruleFactory, p3)) + p3)")
+		r.check(okU, "C37.R1", "BuildBlock:drops-certificates-beyond-the-window", w.rel(bb.Pos()), "", "BuildBlock includes certificates that expire later than timestamp + validity window: they can be referenced again once the first inclusion left the replay window")
 		ir := findEffects(bb, "call (x/dsmr.TimeValidityWindow).IsRepeat(p0.validityWindow, p1, x/dsmr.NewValidityWindowBlock(p2), p3, *)")
 		r.check(len(ir) == 1, "C37.R2", "BuildBlock:IsRepeat(parent, timestamp)", w.rel(bb.Pos()), "", "BuildBlock does not query the validity window for repeats relative to the parent at the block timestamp")
 	}
@@ -458,6 +461,34 @@ func c37(r *Run) {
 			}
 		}
 		r.check(okk, "C37.R1", "Verify:rejects-expired-certificate", w.rel(vf.Pos()), "Expiry < block.Timestamp => error, for every certificate", detail)
+		// upper bound: the success return is reachable only with Expiry <= Timestamp + validity window for the certificate tested
+		okF := false
+		for _, b := range vf.Blocks {
+			ifi, ok := b.Instrs[len(b.Instrs)-1].(*ssa.If)
+			if !ok {
+				continue
+			}
+			ps := predString(ifi.Cond, true)
+			if !(strings.Contains(ps, "GetValidityWindow(") && strings.Contains(ps, "p3.BlockHeader.Timestamp") && strings.Contains(ps, ".ChunkReference.Expiry")) {
+				continue
+			}
+			beyond := 0 // successor taken when Expiry is beyond the bound
+			if !strings.HasSuffix(ps, ".ChunkReference.Expiry") || !strings.Contains(ps, ") < p3.ChunkCerts[") {
+				beyond = 1
+			}
+			tgt := b.Succs[beyond]
+			okF = true
+			for _, o := range returnOutcomes(vf) {
+				if o.isPotentialSuccess() && (o.Ret.Block() == tgt || blockReachableAvoiding(tgt, o.Ret.Block(), b)) {
+					okF = false
+				}
+			}
+			if h, _ := innermostLoop(b); h == nil || !loopExitsOnlyByReturnErr(h) {
+				okF = false
+			}
+		}
+		r.check(okF, "C37.R1", "Verify:rejects-certificate-beyond-the-window", w.rel(vf.Pos()), "Expiry > block.Timestamp + validity window => error, for every certificate",
+			"Verify accepts certificates that expire later than block timestamp + validity window: the one-window replay check cannot see their first inclusion any more when they are referenced again")
 		verp := findEffects(vf, "call (x/dsmr.TimeValidityWindow).VerifyExpiryReplayProtection(p0.validityWindow, p1, x/dsmr.NewValidityWindowBlock(p3))")
 		if len(verp) == 1 {
 			vc := verp[0].Ins.(ssa.CallInstruction)
